@@ -18,6 +18,7 @@ import (
 	"hash/fnv"
 	"reflect"
 	"sort"
+	"strings"
 
 	"github.com/fxamacker/cbor/v2"
 	"github.com/onflow/atree"
@@ -96,6 +97,11 @@ func codecStorage(base atree.BaseStorage) *atree.PersistentSlabStorage {
 	return atree.NewPersistentSlabStorage(base, encMode, codecDecMode, testutils.DecodeStorable, codecDecodeTypeInfo)
 }
 
+// codecStorageT: storage for histories that hold values of the harness' own tuple type (codectuple.go).
+func codecStorageT(base atree.BaseStorage) *atree.PersistentSlabStorage {
+	return atree.NewPersistentSlabStorage(base, encMode, codecDecMode, codecDecodeStorable, codecDecodeTypeInfo)
+}
+
 // ---------- table-driven digester with tiny per-level alphabets ----------
 
 type codecDigesterBuilder struct {
@@ -166,6 +172,15 @@ func (cd *codecDump) leaf(d *atree.VerifDumper, s atree.Storable) []uint64 {
 		return out
 	case testutils.SomeStorable:
 		return append([]uint64{4, sz}, d.Storable(v.Storable)...)
+	case codecTupleStorable:
+		// not a kind the byte-level models describe (unknown), but dumped in full for the
+		// decoded-equals-encoded comparison
+		cd.unknown = true
+		out := []uint64{7, sz, uint64(len(v.elems))}
+		for _, e := range v.elems {
+			out = append(out, d.Storable(e)...)
+		}
+		return out
 	}
 	cd.unknown = true
 	return []uint64{9, sz}
@@ -187,9 +202,14 @@ type codecWalk struct {
 	maxDepth int
 	unknown  bool
 	kinds    map[string]int
+	refAt    map[string]int // optional: where the references are ("depth<d>[/some][/tuple]...")
 }
 
-func (cw *codecWalk) storable(s atree.Storable, depth int) {
+func (cw *codecWalk) storable(s atree.Storable, depth int) { cw.visit(s, depth, "") }
+
+// visit: ctx names the wrappers/tuples the storable sits under (innermost last), for the
+// measured distribution of WHERE a slab's references are.
+func (cw *codecWalk) visit(s atree.Storable, depth int, ctx string) {
 	if depth > cw.maxDepth {
 		cw.maxDepth = depth
 	}
@@ -197,11 +217,14 @@ func (cw *codecWalk) storable(s atree.Storable, depth int) {
 	case atree.SlabIDStorable:
 		cw.hasRef = true
 		cw.kinds["slabid"]++
+		if cw.refAt != nil {
+			cw.refAt[fmt.Sprintf("depth%d%s", depth, ctx)]++
+		}
 	case *atree.ArrayDataSlab:
 		cw.inlined++
 		cw.kinds["inlined_array"]++
 		for _, c := range v.ChildStorables() {
-			cw.storable(c, depth+1)
+			cw.visit(c, depth+1, ctx)
 		}
 	case *atree.MapDataSlab:
 		cw.inlined++
@@ -213,11 +236,20 @@ func (cw *codecWalk) storable(s atree.Storable, depth int) {
 			cw.kinds["inlined_map"]++
 		}
 		for _, c := range v.ChildStorables() {
-			cw.storable(c, depth+1)
+			cw.visit(c, depth+1, ctx)
 		}
 	case testutils.SomeStorable:
 		cw.kinds["some"]++
-		cw.storable(v.Storable, depth)
+		if !strings.HasSuffix(ctx, "/some") {
+			ctx += "/some"
+		}
+		cw.visit(v.Storable, depth, ctx)
+	case codecTupleStorable:
+		cw.kinds["tuple"]++
+		cw.unknown = true // outside the byte-level models
+		for _, c := range v.ChildStorables() {
+			cw.visit(c, depth, ctx+"/tuple")
+		}
 	case testutils.Uint8Value:
 		cw.kinds["uint8"]++
 	case testutils.Uint16Value:
@@ -260,6 +292,16 @@ type codecChecker struct {
 	maxTr   int
 	rich    bool // saw a slab with inlined children, a collision group or a compact map
 	sampled bool
+	dec     atree.StorableDecoder // nil: testutils.DecodeStorable
+	ptrTrue map[int]int           // per slab kind: slabs whose has-pointers flag was checked with content true / false
+	ptrFals map[int]int
+}
+
+func (c *codecChecker) decoder() atree.StorableDecoder {
+	if c.dec != nil {
+		return c.dec
+	}
+	return testutils.DecodeStorable
 }
 
 func (c *codecChecker) bad(what, detail string) {
@@ -384,7 +426,32 @@ func (c *codecChecker) checkSlab(slab atree.Slab, where string) {
 		wantPtr = false // index slabs: the format defines the bit as 0 (they have no elements)
 	}
 	if hasPtr != wantPtr {
-		c.bad("C07: has-pointers flag does not describe the elements", fmt.Sprintf("%s %s: flag %v, content %v", kname, id, hasPtr, wantPtr))
+		c.bad("C07: has-pointers flag does not describe the elements", fmt.Sprintf("%s %s (%s): flag %v, content %v, head %x", kname, id, where, hasPtr, wantPtr, b[:2]))
+	}
+	if c.ptrTrue != nil {
+		if wantPtr {
+			c.ptrTrue[kind]++
+		} else {
+			c.ptrFals[kind]++
+		}
+		// measured distribution: where the references of this slab are
+		cr := &codecWalk{kinds: map[string]int{}, refAt: map[string]int{}}
+		for _, ch := range slab.ChildStorables() {
+			cr.storable(ch, 0)
+		}
+		for at := range cr.refAt {
+			rep.Event("refs_at:" + kname + ":" + at)
+			if len(cr.refAt) == 1 {
+				rep.Event("refs_only_at:" + kname + ":" + at)
+			}
+		}
+		if kind == 5 {
+			if cw.kinds["tuple"] > 0 {
+				rep.Event(fmt.Sprintf("storable_slab_tuple_ref:%v", wantPtr))
+			} else {
+				rep.Event(fmt.Sprintf("storable_slab_plain_ref:%v", wantPtr))
+			}
+		}
 	}
 
 	// --- measured distribution
@@ -471,12 +538,12 @@ func (c *codecChecker) checkSlab(slab atree.Slab, where string) {
 		c.tr.StepU(raw, nil, obs)
 	}()
 
-	d, err := atree.DecodeSlab(id, b, codecDecMode, testutils.DecodeStorable, codecDecodeTypeInfo)
+	d, err := atree.DecodeSlab(id, b, codecDecMode, c.decoder(), codecDecodeTypeInfo)
 	if err != nil {
 		c.bad("C07: an encoding produced by the library cannot be decoded", fmt.Sprintf("%s %s: %v", kname, id, err))
 		return
 	}
-	if _, err := atree.DecodeSlab(id, b, decMode, testutils.DecodeStorable, codecDecodeTypeInfo); err != nil {
+	if _, err := atree.DecodeSlab(id, b, decMode, c.decoder(), codecDecodeTypeInfo); err != nil {
 		rep.Event("needs_more_than_32_nested_levels")
 		if !c.sampled {
 			c.sampled = true
@@ -513,7 +580,7 @@ func (c *codecChecker) checkSlab(slab atree.Slab, where string) {
 
 	// --- extraneous data: index slabs and array data slabs must reject it (their decoders check);
 	// the decoders of map data slabs and storable slabs have no such check: recorded, not alarmed
-	if dx, err := atree.DecodeSlab(id, append(append([]byte{}, b...), 0), codecDecMode, testutils.DecodeStorable, codecDecodeTypeInfo); err == nil {
+	if dx, err := atree.DecodeSlab(id, append(append([]byte{}, b...), 0), codecDecMode, c.decoder(), codecDecodeTypeInfo); err == nil {
 		if kind == 1 || kind == 2 || kind == 4 {
 			c.bad("C07: an encoding followed by an extraneous byte is accepted", fmt.Sprintf("%s %s", kname, id))
 		} else {
@@ -548,7 +615,7 @@ func (c *codecChecker) checkRegisters(w *World) {
 	ids := w.Base.SortedIDs()
 	for _, id := range ids {
 		reg := w.Base.Segs[id]
-		d, err := atree.DecodeSlab(id, reg, codecDecMode, testutils.DecodeStorable, codecDecodeTypeInfo)
+		d, err := atree.DecodeSlab(id, reg, codecDecMode, c.decoder(), codecDecodeTypeInfo)
 		if err != nil {
 			c.bad("C07: a committed register cannot be decoded", fmt.Sprintf("%s: %v", id, err))
 			continue
@@ -577,9 +644,9 @@ func (c *codecChecker) checkSerialization(w *World) {
 		var err error
 		switch x := r.(type) {
 		case *svArr:
-			err = atree.VerifyArraySerialization(x.arr, codecDecMode, encMode, testutils.DecodeStorable, codecDecodeTypeInfo, cmp)
+			err = atree.VerifyArraySerialization(x.arr, codecDecMode, encMode, c.decoder(), codecDecodeTypeInfo, cmp)
 		case *svMap:
-			err = atree.VerifyMapSerialization(x.m, codecDecMode, encMode, testutils.DecodeStorable, codecDecodeTypeInfo, cmp)
+			err = atree.VerifyMapSerialization(x.m, codecDecMode, encMode, c.decoder(), codecDecodeTypeInfo, cmp)
 		}
 		c.rep.Event("serialization_verifier_runs")
 		if err != nil {
@@ -651,6 +718,88 @@ func codecSmallScalar(r *Rng) atree.Value {
 	return testutils.NewStringValue(randStr(r, r.Intn(30)))
 }
 
+// codecRefTarget creates a small stand-alone array or map that a tuple refers to (never mutated afterwards).
+func codecRefTarget(st atree.SlabStorage, addr atree.Address, r *Rng) atree.Value {
+	if r.Chance(70) {
+		a, err := atree.NewArray(st, addr, testutils.NewSimpleTypeInfo(uint64(40+r.Intn(3))))
+		must(err)
+		for k := r.Intn(4); k > 0; k-- {
+			must(a.Append(codecSmallScalar(r)))
+		}
+		return a
+	}
+	m, err := atree.NewMap(st, addr, atree.NewDefaultDigesterBuilder(), testutils.NewSimpleTypeInfo(uint64(50+r.Intn(3))))
+	must(err)
+	for k := r.Intn(4); k > 0; k-- {
+		_, err := m.Set(testutils.CompareValue, testutils.GetHashInput, testutils.Uint64Value(uint64(r.Intn(50))), codecSmallScalar(r))
+		must(err)
+	}
+	return m
+}
+
+// codecNewTuple creates a tuple value.  refs: number of components that refer to another slab
+// (plain, Some-wrapped, or inside a nested small tuple); pad: length of a string component
+// (0 = none) that decides whether the tuple fits in line; the other components are small scalars.
+func codecNewTuple(st atree.SlabStorage, addr atree.Address, r *Rng, refs int, pad int) codecTuple {
+	var vs []atree.Value
+	for i := 0; i < refs; i++ {
+		var v atree.Value = codecRefTarget(st, addr, r)
+		switch r.Intn(6) {
+		case 0:
+			for k := 1 + r.Intn(3); k > 0; k-- {
+				v = testutils.NewSomeValue(v)
+			}
+		case 1:
+			v = newCodecTuple(codecSmallScalar(r), v)
+		case 2:
+			v = testutils.NewSomeValue(newCodecTuple(v))
+		}
+		vs = append(vs, v)
+	}
+	for k := r.Intn(3); k > 0; k-- {
+		vs = append(vs, codecSmallScalar(r))
+	}
+	if pad > 0 {
+		vs = append(vs, testutils.NewStringValue(randStr(r, pad)))
+	}
+	if r.Chance(20) {
+		vs = append(vs, newCodecTuple(codecSmallScalar(r))) // a nested tuple without references
+	}
+	for i := range vs { // components in random order
+		j := i + r.Intn(len(vs)-i)
+		vs[i], vs[j] = vs[j], vs[i]
+	}
+	return newCodecTuple(vs...)
+}
+
+// codecInjectTuple: a random tuple for the World histories (shadow: a scalar compared by content rendering).
+func codecInjectTuple(w *World) (atree.Value, SV) {
+	r := w.Rng
+	refs := r.Pick(25, 55, 20)
+	pad := 0
+	switch r.Intn(3) {
+	case 1: // around the inline limits
+		lim := int(atree.MaxInlineArrayElementSize())
+		if r.Bool() {
+			lim = int(atree.MaxInlineMapElementSize()) / 2
+		}
+		pad = lim - 40 + r.Intn(50)
+		if pad < 1 {
+			pad = 1
+		}
+	case 2: // too large for any parent
+		pad = int(atree.MaxInlineArrayElementSize()) + r.Intn(200)
+	}
+	var v atree.Value = codecNewTuple(w.St, w.Addr, r, refs, pad)
+	var s SV = &svScalar{v}
+	if w.Opts.Wrap && r.Chance(25) {
+		for k := 1 + r.Intn(2); k > 0; k-- {
+			v, s = testutils.NewSomeValue(v), &svSome{s}
+		}
+	}
+	return v, s
+}
+
 // codecPut stores (v, s) into a random live container through that container's own wrapper.
 func codecPut(w *World, container bool, mk func(depthLeft int) (atree.Value, SV)) {
 	cs := w.containers()
@@ -698,8 +847,10 @@ func codecCompareAll(w *World) {
 }
 
 // codecReopen is World.Reopen with the codec's type-info decoder.
-func codecReopen(w *World) {
-	w.St = codecStorage(w.Base)
+func codecReopen(w *World) { codecReopenWith(w, codecStorage) }
+
+func codecReopenWith(w *World, mk func(atree.BaseStorage) *atree.PersistentSlabStorage) {
+	w.St = mk(w.Base)
 	for _, r := range w.Roots {
 		switch x := r.(type) {
 		case *svArr:
@@ -742,6 +893,15 @@ func cmdCodec(a Args) {
 	if a.Depth > 2 {
 		every = a.Depth
 	}
+	// -mode tuples: the same histories, plus values of the harness' own tuple type (codectuple.go:
+	// container storables with references inside that can become large-value slabs); no model trace
+	tuples := a.Mode == "tuples"
+	mkStorage := codecStorage
+	if tuples {
+		mkStorage = codecStorageT
+		maxTracePerHist = 0
+		rep.Rule += "; -mode tuples: additionally immutable tuples (own value type; components: references to stand-alone arrays/maps, plain / Some-wrapped / inside a nested tuple, scalars, a string sized below / around / above the inline limits) are stored into random live containers, so that large-value slabs WITH references inside and in-line container storables with references exist; not traced for the byte-level model"
+	}
 	defer atree.VerifSetThreshold(1024)
 	total := 0
 	for h := 0; h < a.N; h++ {
@@ -753,7 +913,7 @@ func cmdCodec(a Args) {
 		T := sizes[hr.Intn(len(sizes))]
 		atree.VerifSetThreshold(T)
 		flavour := h % 5 // 0 flat, 1 nested, 2 collisions, 3 compact, 4 mixed (collisions + nested)
-		opts := WorldOpts{Addr: 1 + uint64(hr.Intn(3)), Maps: true, Wrap: hr.Chance(60), LargeVals: hr.Chance(60), PopChild: true, KeySpace: 60}
+		opts := WorldOpts{Addr: 1 + uint64(hr.Intn(3)), Maps: true, Wrap: hr.Chance(60), LargeVals: hr.Chance(60), PopChild: true, KeySpace: 60, SelfSet: hr.Chance(40)}
 		compact := false
 		collide := false
 		switch flavour {
@@ -779,8 +939,12 @@ func cmdCodec(a Args) {
 		}
 		base := NewLogBase()
 		w := NewWorld(base, hr, opts, rep)
-		w.St = codecStorage(base)
+		w.St = mkStorage(base)
 		ck := &codecChecker{rep: rep, tr: tr, hist: h, tag: tag, T: T, compact: compact, seen: map[uint64]bool{}, maxTr: maxTracePerHist}
+		if tuples {
+			ck.dec = codecDecodeStorable
+			ck.ptrTrue, ck.ptrFals = map[int]int{}, map[int]int{}
+		}
 		if a.Mode == "thorough" && h%5 != 0 {
 			ck.maxTr = 0 // keep the trace of the thorough tier at a replayable size
 		}
@@ -811,6 +975,9 @@ func cmdCodec(a Args) {
 			for step = 0; step < a.Steps; step++ {
 				ck.step = step
 				switch {
+				case tuples && hr.Chance(12):
+					codecPut(w, false, func(int) (atree.Value, SV) { return codecInjectTuple(w) })
+					rep.Op("put.tuple")
 				case compact && hr.Chance(25):
 					codecPut(w, true, func(dl int) (atree.Value, SV) { return codecInjectCompact(w, dl) })
 					rep.Op("put.compositemap")
@@ -834,7 +1001,7 @@ func cmdCodec(a Args) {
 					ck.checkRegisters(w)
 					rep.Op("commit")
 					if !collide && hr.Chance(40) {
-						codecReopen(w)
+						codecReopenWith(w, mkStorage)
 						rep.Op("reopen")
 						if !compact {
 							w.VerifyAll(false)
